@@ -62,7 +62,7 @@ class Frame:
 
 
 class Obligation:
-    __slots__ = ('name', 'tier', 'pc', 'goal', 'where', 'status', 'time', 'model', 'prop', 'kind', 'unit', 'note')
+    __slots__ = ('name', 'tier', 'pc', 'goal', 'where', 'status', 'time', 'model', 'prop', 'kind', 'unit', 'note', 'template', 'native')
 
     def __init__(self, name, tier, pc, goal, where, kind):
         self.name, self.tier, self.pc, self.goal, self.where, self.kind = name, tier, pc, goal, where, kind
@@ -71,6 +71,8 @@ class Obligation:
         self.model = None
         self.unit = None
         self.note = None
+        self.template = None
+        self.native = None
 
 
 class Snapshot:
@@ -116,6 +118,7 @@ class Engine:
         self.stdout = []
         self._decide_cache = {}
         self.sigmas = []
+        self.native_template = None
 
     def fresh_name(self, base):
         k = self._fresh.get(base, 0)
@@ -256,6 +259,7 @@ class Engine:
             where = self.frames[-1].func.qualname
         ob = Obligation(name, tier, list(self.pc), goal, where, kind)
         ob.unit = self.unit_name
+        ob.template = self.native_template
         self.obligations.append(ob)
 
     def prove_value_eq(self, name, a, b, tier='I', kind='post'):
@@ -307,6 +311,11 @@ class Engine:
             return
         self.prove(name, value_eq_bool(a, b), tier, kind)
 
+    def native_input(self, template):
+        """register how a solver model of this unit maps to an input of the property's native oracle
+        (dict / list structure whose leaves are symbolic values); used to replay counterexamples on the real code"""
+        self.native_template = template
+
     def cover(self, name):
         self.covers[name] = True
 
@@ -322,6 +331,23 @@ class Engine:
 
     def new_dict(self, d=None):
         return self.new_cell({'__kind__': 'dict', 'val': dict(d or {})})
+
+    def new_obj(self, qualname, fields):
+        """instance of a real class with the given field values (used by contracts to build pre-states)"""
+        ci = self.program.classes.get(qualname)
+        if ci is None:
+            raise CheckerError('class %s not found' % qualname)
+        d = {'__kind__': 'obj', '__class__': ci}
+        d.update(fields)
+        return self.new_cell(d)
+
+    def new_file(self, content, pos):
+        return self.new_cell({'__kind__': 'file', 'content': content, 'pos': VInt(pos) if not isinstance(pos, V) else pos, 'closed': FALSE})
+
+    def method(self, obj, name, *args, **kwargs):
+        """call a method of a heap object the way python would (MRO lookup)"""
+        f = self.getattr_value(obj, name)
+        return self.call_value(f, [lift(a) for a in args], {k: lift(v) for k, v in kwargs.items()})
 
     def cell(self, ref):
         return self.heap[ref.oid]
@@ -1327,6 +1353,10 @@ class Engine:
             return seq_concat(a, b)
         if isinstance(a, VTuple) and isinstance(b, VTuple) and isinstance(op, ast.Add):
             return VTuple(a.items + b.items)
+        if isinstance(a, VTuple) and isinstance(op, ast.Mult) and conc_int(self.as_int(b)) is not None:
+            return VTuple(a.items * max(0, conc_int(self.as_int(b))))
+        if isinstance(b, VTuple) and isinstance(op, ast.Mult) and conc_int(self.as_int(a)) is not None:
+            return VTuple(b.items * max(0, conc_int(self.as_int(a))))
         if isinstance(a, VSeq) and isinstance(op, ast.Mult):
             return seq_repeat(self.fix_len(a), self.as_int(b))
         if isinstance(b, VSeq) and isinstance(op, ast.Mult):
@@ -1558,7 +1588,12 @@ class Engine:
             first = fr.func.node.args.args[0].arg
             selfv = fr.locals[first]
         name = e.func.attr
-        args = [self.eval(a, fr) for a in e.args]
+        args = []
+        for a in e.args:
+            if isinstance(a, ast.Starred):
+                args.extend(self.iter_items(self.eval(a.value, fr)))
+            else:
+                args.append(self.eval(a, fr))
         kwargs = {}
         for kw in e.keywords:
             if kw.arg is None:
